@@ -2423,9 +2423,40 @@ class TypeEnv:
             d = single_def(f.id)
             if isinstance(d, ast.Lambda):
                 vals = [d]
+            elif isinstance(d, (ast.Subscript, ast.Call)):
+                f = d            # `builder = TABLE[key]; builder(...)`: the callee is an entry of the table
         else:
             tbl = f.value if isinstance(f, ast.Subscript) else \
                 f.func.value if isinstance(f, ast.Call) and isinstance(f.func, ast.Attribute) and f.func.attr == 'get' else None
+            class_scope: Optional[ClassInfo] = None
+            if isinstance(tbl, ast.Attribute) and isinstance(tbl.value, ast.Name) and tbl.value.id in ('self', 'cls') and \
+                    self.fn.cls is not None:
+                # a class-level table: `self._BUILDERS[key](self, ...)`
+                for c_ in [self.fn.cls] + [a_ for a_ in self.prog.ancestors(self.fn.cls) if isinstance(a_, ClassInfo) and a_ is not self.fn.cls]:
+                    for st_ in c_.node.body:
+                        tg_ = st_.targets[0] if isinstance(st_, ast.Assign) and len(st_.targets) == 1 else \
+                            st_.target if isinstance(st_, ast.AnnAssign) and st_.value is not None else None
+                        if isinstance(tg_, ast.Name) and tg_.id == tbl.attr and isinstance(st_.value, ast.Dict) and st_.value.values \
+                                and all(k is not None for k in st_.value.keys) and vals is None:
+                            vals = list(st_.value.values)
+                            class_scope = c_
+                if vals is not None and isinstance(f, ast.Call) and len(f.args) > 1:
+                    vals.append(f.args[1])
+                if vals is not None:
+                    out_: List[Any] = []
+                    for v in vals:
+                        m_ = class_scope.methods.get(v.id) if isinstance(v, ast.Name) and class_scope is not None else None
+                        if m_ is not None:
+                            out_.append(m_)
+                        elif isinstance(v, ast.Lambda):
+                            out_.append(('lambda', v))
+                        else:
+                            s_ = self.prog.resolve_expr_symbol(class_scope.module, v) if isinstance(v, (ast.Name, ast.Attribute)) else None
+                            if isinstance(s_, FuncInfo):
+                                out_.append(s_)
+                            else:
+                                return []
+                    return out_
             if isinstance(tbl, ast.Dict) and tbl.values and all(k is not None for k in tbl.keys):
                 vals = list(tbl.values)         # the table is written where it is used
                 if isinstance(f, ast.Call) and len(f.args) > 1:
